@@ -580,6 +580,9 @@ func (w FederatingWrappedCallbacks) accept(c context.Context, a vocab.ActivitySt
 				if err != nil {
 					return err
 				}
+				if t == nil {
+					return fmt.Errorf("peer gave an Accept wrapping a Follow that is not stored here")
+				}
 				if !streams.IsOrExtendsActivityStreamsFollow(t) {
 					return fmt.Errorf("peer gave an Accept wrapping a Follow but provided a non-Follow id")
 				}
